@@ -475,9 +475,12 @@ def parse (feat : Option Bool) (tbl : SymTab) (src : List Char) : Res Air × Sym
     parseLoop (utf8Len src) (toks.length + 1) toks
       { orig := none, stmts := [], n := 0, bps := [], line := 1, tokEnd := 0 } tbl
 
-/-- `AsmParser::new_simple(src)?.parse_simple()` (the debugger's `eval`): `none` in the last
-component = the `debug_assert!` on surplus tokens fired. -/
-def parseSimple (feat : Option Bool) (tbl : SymTab) (src : List Char) : Res Stmt :=
+/-- `AsmParser::new_simple(src, line)?.parse_simple()` (the debugger's `eval`).  `line` is the
+parser's line counter, from which literal PC offsets are counted (fix of D17: it used to be the
+constant 1).  Tokens after the last operand are an unexpected-token diagnostic (fix of D18: the
+original had `debug_assert!(self.toks.next().is_none())`, a panic in the dev profile and silent
+acceptance in release). -/
+def parseSimple (feat : Option Bool) (tbl : SymTab) (line : Nat) (src : List Char) : Res Stmt :=
   match preprocessSimple feat src with
   | .diag k s => .diag k s
   | .panic s => .panic s
@@ -491,9 +494,9 @@ def parseSimple (feat : Option Bool) (tbl : SymTab) (src : List Char) : Res Stmt
         | .diag k s => .diag k s
         | .panic s => .panic s
         | .ok (stmt, [], _) => .ok stmt
-        | .ok (_, _ :: _, _) => .panic "debug_assert!: expected end of line"
+        | .ok (_, surplus :: _, _) => unexpectedDiag surplus
       match tok.kind with
-      | .instr k => fin (parseInstr srcLen tbl 1 k ts)
+      | .instr k => fin (parseInstr srcLen tbl line k ts)
       | .trap k => fin (parseTrap srcLen k ts)
       | .dir _ => unexpectedDiag tok
       | .label => unexpectedDiag tok
